@@ -149,7 +149,7 @@ def c13(run):
 
 def c02(run):
     t = run.tier == "thorough"
-    run.rule = ("MC_Bdd C02: |AllWF(NV)| = 2^2^NV, Sat injective, Canon(Sat(a)) = a for NV=3 (thorough NV=4); MC_Env I_WF/I_Canon over every "
+    run.rule = ("MC_Bdd C02: |AllWF(NV)| = 2^2^NV, Canon o Sat = id on AllWF and Sat o Canon = id on all sets of assignments (Sat is a bijection) for NV=3 (thorough NV=4); MC_Env I_WF/I_Canon over every "
                 "reachable handle set; behaviours and random histories: every result WF, equal/hash-equal iff same function across "
                 "routes and environments (Trace_Env I_Canon, harness cross-environment comparison); non-trivial = distinct functions reached")
     checks_bdd.mc_bdd(run, "C02", 4 if t else 3, timeout=7200)
